@@ -173,6 +173,10 @@ def run_property(pid, tier, seed):
         if r["status"] == "ok" and not r.get("feasible_paths", 1):
             print(f"CHECKER-ERROR property={pid} function={r['function']} precondition admits no path (vacuous contract)")
             rc = 3
+        if r["status"] == "ok" and r.get("needs_return_path") and not r.get("return_paths", 1):
+            print(f"CHECKER-ERROR property={pid} function={r['function']} no normally returning path: postconditions hold "
+                  f"vacuously (contradictory precondition or callee contracts; dead ends: {r.get('dead_ends')})")
+            rc = 3
     printed = set()
     for kid, name in known_hits:
         k = next(x for x in known_all if x["id"] == kid)
